@@ -14,7 +14,7 @@
 (***************************************************************************)
 EXTENDS Naturals, Sequences, FiniteSets, TLC
 
-Comps == {"", ".", "..", "...", " ", ".git", ".GIT", ".Git", ".git ", ".git.", ".git. .", "git~1", "GIT~1", "git~2", "git~1x", ".git~1", ".git::$INDEX_ALLOCATION", ".git:x", ".gitx", ".gi", "a\\b", "..\\x", ".git\\x", "a\\.git\\x", "a\\git~1", "\\abs", "C:", "C:x", "C:\\x", ".g{ZWNJ}it", "{ZWNJ}.git", ".GIT{ZWNJ}", "{FF}", "~", "a", "d", "e", "x", "h", "of", "od", "ol", "p", "repo", "config", "hooks", "tmp"}
+Comps == {"", ".", "..", "...", " ", ".git", ".GIT", ".Git", ".git ", ".git.", ".git. .", "git~1", "GIT~1", "git~2", "git~1x", ".git~1", ".git::$INDEX_ALLOCATION", ".git:x", ".gitx", ".gi", "a\\b", "..\\x", ".git\\x", "a\\.git\\x", "a\\git~1", "\\abs", "C:", "C:x", "C:\\x", ".g{ZWNJ}it", "{ZWNJ}.git", ".GIT{ZWNJ}", "{FF}", "~", "a", "d", "e", "x", "h", "of", "od", "ol", "p", "repo", "config", "hooks", "tmp", "repo-x", "f"}
 Chars ==
     ("" :> <<>>) @@
     ("." :> <<".">>) @@
@@ -62,7 +62,9 @@ Chars ==
     ("repo" :> <<"r", "e", "p", "o">>) @@
     ("config" :> <<"c", "o", "n", "f", "i", "g">>) @@
     ("hooks" :> <<"h", "o", "o", "k", "s">>) @@
-    ("tmp" :> <<"t", "m", "p">>)
+    ("tmp" :> <<"t", "m", "p">>) @@
+    ("repo-x" :> <<"r", "e", "p", "o", "-", "x">>) @@
+    ("f" :> <<"f">>)
 Rank ==
     ("" :> 0) @@
     (" " :> 1) @@
@@ -96,21 +98,23 @@ Rank ==
     ("config" :> 29) @@
     ("d" :> 30) @@
     ("e" :> 31) @@
-    ("git~1" :> 32) @@
-    ("git~1x" :> 33) @@
-    ("git~2" :> 34) @@
-    ("h" :> 35) @@
-    ("hooks" :> 36) @@
-    ("od" :> 37) @@
-    ("of" :> 38) @@
-    ("ol" :> 39) @@
-    ("p" :> 40) @@
-    ("repo" :> 41) @@
-    ("tmp" :> 42) @@
-    ("x" :> 43) @@
-    ("~" :> 44) @@
-    ("{ZWNJ}.git" :> 45) @@
-    ("{FF}" :> 46)
+    ("f" :> 32) @@
+    ("git~1" :> 33) @@
+    ("git~1x" :> 34) @@
+    ("git~2" :> 35) @@
+    ("h" :> 36) @@
+    ("hooks" :> 37) @@
+    ("od" :> 38) @@
+    ("of" :> 39) @@
+    ("ol" :> 40) @@
+    ("p" :> 41) @@
+    ("repo" :> 42) @@
+    ("repo-x" :> 43) @@
+    ("tmp" :> 44) @@
+    ("x" :> 45) @@
+    ("~" :> 46) @@
+    ("{ZWNJ}.git" :> 47) @@
+    ("{FF}" :> 48)
 
 (***************************************************************************)
 (* helpers on character sequences                                          *)
